@@ -279,7 +279,10 @@ def run_property(pid: str, tier: str, seed: int, replay: str | None = None) -> i
 
     # ---- classify against known findings
     known = [k for k in load_known() if k.get("property") == pid and k.get("status") == "known"]
-    known_ids = {k["mechanism"]: k for k in known}
+    known_ids = {}
+    for k in known:
+        for mname in ([k["mechanism"]] if "mechanism" in k else []) + list(k.get("mechanisms", [])):
+            known_ids[mname] = k
     hit = Counter()
     fresh = []
     for v in violations:
@@ -295,8 +298,15 @@ def run_property(pid: str, tier: str, seed: int, replay: str | None = None) -> i
             fresh.append(v)
 
     # ---- report
+    by_entry = {}
     for mech, n in sorted(hit.items()):
-        print(f"KNOWN-FINDING: property={pid} {known_ids[mech]['what']} [mechanism={mech}; {n} witness(es) this run]")
+        e = known_ids[mech]
+        by_entry.setdefault(id(e), [e, [], 0])
+        by_entry[id(e)][1].append(mech)
+        by_entry[id(e)][2] += n
+    for e, mechs, n in by_entry.values():
+        label = mechs[0] if len(mechs) == 1 else f"{len(mechs)} listed mechanisms, e.g. {mechs[0]}"
+        print(f"KNOWN-FINDING: property={pid} {e['what']} [mechanism={label}; {n} witness(es) this run]")
     rc = 0
     seen_msgs = set()
     nfiles = 0
@@ -329,6 +339,7 @@ def run_property(pid: str, tier: str, seed: int, replay: str | None = None) -> i
         "monitor_counters": dict(sorted(counters.items())),
         "known_findings_hit": dict(hit),
         "violations_unlisted": len(fresh),
+        "violations_unlisted_by_kind": dict(Counter((v.get("mechanism") or v.get("msg", "")[:90]) for v in fresh).most_common(60)),
         "inconclusive_reasons": inconclusive[:10],
         "shards": nshards,
         "tree": str(repo_path()),
